@@ -13,6 +13,7 @@ SHAPES = {
     "path5": (5, [(0, 1), (1, 2), (2, 3), (3, 4)]),
     "path6": (6, [(i, i + 1) for i in range(5)]),
     "path7": (7, [(i, i + 1) for i in range(6)]),
+    "path12": (12, [(i, i + 1) for i in range(11)]),
     "star4": (4, [(0, 1), (0, 2), (0, 3)]),
     "star4b": (4, [(1, 0), (1, 2), (1, 3)]),
     "comb5": (5, [(0, 1), (1, 2), (2, 3), (1, 4)]),
